@@ -150,7 +150,8 @@ def latexHeaderLine (kv : Str × Str) : Str := asciiReplace (kv.1 ++ ": ".toList
 /-- `to_latex_document(F, out, export_header, extra_text)`; `hdr` is always needed (title) -/
 def latexDocumentText (F : AnyF) (names : List Str) (hdr : Header) (exportHeader : Bool) (extra : Str) :
     Except Err Str :=
-  match hdr.lookup "description".toList with
+  -- `F.header.get('description', '')` (a missing entry raised KeyError before the fix 41a4c01 in /repo)
+  match some ((hdr.lookup "description".toList).getD []) with
   | none => .error .keyError
   | some title =>
     match latexBodyText F names clausesPerPage false with
